@@ -45,26 +45,23 @@ static inline unsigned ref_odd_parity(unsigned c)
 static inline unsigned ref_par8(unsigned c)
 { c &= 0x7F; return c | ((ref_popcount8(c) & 1u) ? 0u : 0x80u); }
 
-/* Hamming 24/18: positions 1..24; parity bits at 1,2,4,8,16 (odd parity over the
-   positions whose index has that bit set), overall odd parity at 24; data bits
-   D1..D18 fill the other positions in ascending order. Returns 24-bit word,
-   position 1 = bit 0. */
+/* Hamming 24/18 (EN 300 706 8.3): positions 1..24; protection bits at positions 1,2,4,8,16, each giving odd
+   parity over the positions whose index has that bit set; overall odd parity at 24; data bits D1..D18 fill the
+   other positions in ascending order.  Returns the 24-bit word, position 1 = bit 0.  Straight-line code
+   (the loop version cost minutes of symex per call). */
+static inline unsigned ref_par32(unsigned v) { v ^= v >> 16; v ^= v >> 8; v ^= v >> 4; v ^= v >> 2; v ^= v >> 1; return v & 1u; }
 static inline unsigned ref_ham24(unsigned d18)
 {
-  unsigned w = 0, pos, k = 0, p, j;
-  for (pos = 1; pos <= 23; pos++) {
-    if (pos == 1 || pos == 2 || pos == 4 || pos == 8 || pos == 16) continue;
-    w |= ref_bit(d18, k++) << (pos - 1);
-  }
-  for (j = 0; j < 5; j++) {
-    p = 1;
-    for (pos = 1; pos <= 23; pos++)
-      if ((pos & (1u << j)) && pos != (1u << j)) p ^= ref_bit(w, pos - 1);
-    w |= p << ((1u << j) - 1);
-  }
-  p = 1;
-  for (pos = 1; pos <= 23; pos++) p ^= ref_bit(w, pos - 1);
-  w |= p << 23;
+  /* D1 -> pos 3; D2..D4 -> pos 5..7; D5..D11 -> pos 9..15; D12..D18 -> pos 17..23 */
+  unsigned w = ((d18 & 1u) << 2) | (((d18 >> 1) & 7u) << 4) | (((d18 >> 4) & 0x7Fu) << 8) | (((d18 >> 11) & 0x7Fu) << 16);
+  /* masks of positions 1..23 (bit = pos-1) whose index has bit j set */
+  const unsigned M1 = 0x555555u, M2 = 0x666666u, M4 = 0x787878u, M8 = 0x007F80u, M16 = 0x7F8000u;
+  w |= (1u ^ ref_par32(w & M1)) << 0;
+  w |= (1u ^ ref_par32(w & M2)) << 1;
+  w |= (1u ^ ref_par32(w & M4)) << 3;
+  w |= (1u ^ ref_par32(w & M8)) << 7;
+  w |= (1u ^ ref_par32(w & M16)) << 15;
+  w |= (1u ^ ref_par32(w & 0x7FFFFFu)) << 23;
   return w;
 }
 #endif
